@@ -2,6 +2,7 @@ package c13
 
 import (
 	"fmt"
+	"reflect"
 	"strings"
 
 	"gorm.io/gorm"
@@ -260,6 +261,9 @@ func hUpdateSliceOp(name, desc, shape string, upd func(db *gorm.DB) *gorm.DB) hO
 }
 
 func hSaveOps() (ops []hOp) {
+	for _, sh := range hSharedShapes {
+		ops = append(ops, hSharedBossOp(false, sh), hSharedBossOp(true, sh))
+	}
 	for _, rel := range []string{"Account", "Pets", "Tags", "Boss"} {
 		for _, verb := range []string{"Append", "Replace"} {
 			for _, sh := range hShapes {
@@ -291,4 +295,117 @@ func hSaveOps() (ops []hOp) {
 		)
 	}
 	return
+}
+
+// ---- one belongs-to record shared by several elements of a created / saved slice or array ------------------------------
+//
+// "each applicable hook fires exactly once per affected in-memory record ... with associations carrying their own
+// hooks": an in-memory record reachable from several elements of the argument (k owners whose Boss field holds the
+// SAME pointer) is still one in-memory record. The shared bosses are new records with a caller-chosen (non-zero) key
+// and no row; the other owners of the argument carry a new boss of their own without key, the key of a stored boss,
+// or none. Argument shapes: value slice, pointer slice, pointer array, value array.
+
+var hSharedShapes = []string{"values", "pointers", "pointer-array", "value-array"}
+
+// hOwnersArgN: hOwnersArg plus the two array shapes (ptrs: the addresses gorm works on)
+func hOwnersArgN(shape string, mk func(i int) *HOwner, n int) (arg interface{}, ptrs []*HOwner) {
+	switch shape {
+	case "pointer-array":
+		a := reflect.New(reflect.ArrayOf(n, reflect.TypeOf((*HOwner)(nil)))).Elem()
+		for i := 0; i < n; i++ {
+			o := mk(i)
+			a.Index(i).Set(reflect.ValueOf(o))
+			ptrs = append(ptrs, o)
+		}
+		return a.Addr().Interface(), ptrs
+	case "value-array":
+		a := reflect.New(reflect.ArrayOf(n, reflect.TypeOf(HOwner{}))).Elem()
+		for i := 0; i < n; i++ {
+			a.Index(i).Set(reflect.ValueOf(*mk(i)))
+			ptrs = append(ptrs, a.Index(i).Addr().Interface().(*HOwner))
+		}
+		return a.Addr().Interface(), ptrs
+	}
+	return hOwnersArg(shape, mk, n)
+}
+
+func hSharedBossOp(save bool, shape string) hOp {
+	verb := "Create"
+	if save {
+		verb = "Save"
+	}
+	return hOp{strings.ToLower(verb) + "-shared-boss-" + shape, func(r *core.Rand, tag string) hCase {
+		n := r.Range(2, 4)
+		np := r.Range(1, 2) // shared bosses
+		full := r.Intn(3) == 0
+		// which boss each owner refers to: pool index, -1 a new boss of its own (no key), -2 the key of a stored boss, -3 none
+		ref := make([]int, n)
+		for i := range ref {
+			switch x := r.Intn(6); {
+			case x < 3:
+				ref[i] = r.Intn(np)
+			default:
+				ref[i] = 2 - x // -1, -2, -3
+			}
+		}
+		// at least two owners share the first pool record; their positions are random
+		pp := r.Perm(n)
+		ref[pp[0]], ref[pp[1]] = 0, 0
+		base := int64(100 + 10*r.Intn(5))
+		seed := r.U64()
+		var ptrs []*HOwner
+		build := func() interface{} {
+			rr := core.NewRand(seed)
+			pool := make([]*HBoss, np)
+			for j := range pool {
+				pool[j] = &HBoss{ID: base + int64(j), Name: fmt.Sprintf("bs%s_%d", tag, j)}
+			}
+			var arg interface{}
+			arg, ptrs = hOwnersArgN(shape, func(i int) *HOwner {
+				o := hNewOwner(rr, tag, i)
+				o.Boss, o.BossID = nil, nil
+				switch ref[i] {
+				case -1:
+					o.Boss = &HBoss{Name: fmt.Sprintf("b%s_%d", tag, i)}
+				case -2:
+					id := int64(1 + i%2)
+					o.BossID = &id
+				case -3:
+				default:
+					o.Boss = pool[ref[i]]
+				}
+				return o
+			}, n)
+			return arg
+		}
+		build()
+		var ds []string
+		for i, o := range ptrs {
+			d := hDescOwner(o)
+			if ref[i] >= 0 {
+				d = strings.Replace(d, "Boss:new", fmt.Sprintf("Boss:shared#%d(ID:%d)", ref[i], base+int64(ref[i])), 1)
+			}
+			ds = append(ds, d)
+		}
+		sess := ""
+		if full {
+			sess = "Session(&Session{FullSaveAssociations: true})."
+		}
+		return hCase{
+			desc:   fmt.Sprintf("db.%s%s(%s of new HOwner %s; owners with the same shared#j hold the same *HBoss, a new record with a preset key)", sess, verb, shape, strings.Join(ds, ", ")),
+			exact:  "create",
+			atomic: true,
+			run: func(db *gorm.DB) error {
+				arg := build()
+				if full {
+					db = db.Session(&gorm.Session{FullSaveAssociations: true})
+				}
+				if save {
+					return db.Save(arg).Error
+				}
+				return db.Create(arg).Error
+			},
+			recs: func() ([]hRec, int) { return hWalk(ptrs) },
+		}
+	}}
 }
